@@ -1,4 +1,4 @@
-From Coq Require Import ZArith String List Bool Lia.
+From Coq Require Import ZArith String List Bool Lia Sorted.
 From Flox Require Import ListX Val Agg ValAlg Hom Spec Pipeline PipelineLaw Registry C04Proofs C02Proofs Factorize FactorizeLaw.
 Import ListNotations.
 Open Scope Z_scope.
@@ -69,3 +69,11 @@ Example c05_example :
   factorize true (Some [7; 3; 5]) [Some 3; None; Some 9; Some 7; Some 3]
   = ([3; 5; 7], [0; -1; -1; 2; 0]).
 Proof. reflexivity. Qed.
+
+Lemma labels_are_those_requested :
+  forall ex labels, groups_of false (Some ex) labels = ex /\
+                    (NoDup ex -> StronglySorted Z.lt (groups_of true (Some ex) labels)).
+Proof.
+  intros ex labels. split; [reflexivity|].
+  intros H. apply groups_sorted. now intros ? [= <-].
+Qed.
